@@ -62,12 +62,20 @@ theorem val_neg (a : Mag Rat) : a.neg.val = - a.val := by
 theorem isZero_iff (a : Mag Rat) : a.isZero = true ↔ a.val = 0 := by
   cases a <;> simp [Mag.isZero, Mag.val, Mag.toRat, FloatLike.isZero, FloatLike.toRat]
 
+theorem divErr_none {a b : Mag Rat} (h : Mag.divErr a b = none) : b.val ≠ 0 := by
+  unfold Mag.divErr at h
+  split at h
+  · split at h <;> cases h
+  · next hz => exact fun e => hz ((isZero_iff b).2 e)
+
 theorem val_div {a b r : Mag Rat} (h : Mag.div a b = .ok r) : r.val = a.val / b.val ∧ b.val ≠ 0 := by
   unfold Mag.div at h
-  split at h
-  · cases h
-  · next hz =>
-    have hb : b.val ≠ 0 := fun e => hz ((isZero_iff b).2 e)
+  cases he : Mag.divErr a b with
+  | some e => rw [he] at h; cases h
+  | none =>
+    rw [he] at h
+    have hb := divErr_none he
+    simp only at h
     split at h
     · injection h with h; subst h; exact ⟨rfl, hb⟩
     · injection h with h; subst h
@@ -95,9 +103,12 @@ theorem ipow_eq (x : Rat) (n : Int) : ipow x n = x ^ n := by
 
 theorem val_powInt {a r : Mag Rat} {n : Int} (h : a.powInt n = .ok r) : r.val = a.val ^ n := by
   unfold Mag.powInt at h
-  split at h
-  · cases h
-  · cases a with
+  cases he : Mag.powErr a n with
+  | some e => rw [he] at h; cases h
+  | none =>
+    rw [he] at h
+    simp only at h
+    cases a with
     | int i =>
       simp only at h
       split at h
